@@ -21,6 +21,7 @@ binary floating point, sums far below 2**53, so every comparison is exact).
 """
 from __future__ import annotations
 
+import json
 from fractions import Fraction
 
 import core
@@ -53,13 +54,23 @@ RULE = ("random undirected multigraphs, <= 8 nodes / <= 14 edges (thorough: ever
         "graphs with 1000-2500 nodes (paths in all 8 orientation x weight-direction x edge-order combinations, then "
         "random caterpillars / stars / paths, extra edges touching the ends, sometimes disconnected; run under the "
         "default recursion limit) and 40 (300) 'dense' (near-)complete graphs with 20-32 nodes, many-ties / few-ties "
-        "weights; non-trivial = "
+        "weights.  PRESENTATION (recipe in case['present']): edges as tuples / lists / mixed, equal edges as the same "
+        "object, one list object for all kruskal calls; prim's neighbour collections as list / tuple / generator / "
+        "iter / map / reversed / dict keys view (per graph or per node), pairs as tuples / lists, int / float / bool "
+        "weights, odd hashable labels (None, 0, '', (), frozenset(), -1, 0.5, '0', ...; a start node labelled None is "
+        "mirrored as 'start not given'), kruskal and prim calls in three orders.  HISTORIES: every 12th item is 2-4 "
+        "related graphs run in one worker call (same input on the same / fresh objects, re-weighted, narrowed, "
+        "widened); a clause that fails there but not alone in a fresh process gets ':after_previous_call'; non-trivial = "
         "the kruskal mirror rejected >= 1 edge (iterations > accepted edges); distinct by (n, edges, scale)")
 
-LABEL_KINDS = ["int", "shift", "neg", "str", "tuple", "mixed"]
+LABEL_KINDS = ["int", "shift", "neg", "str", "tuple", "mixed", "odd", "odd"]
+
+# odd but perfectly good hashable labels, pairwise different under == (no bools: True == 1)
+ODD = [0, "", None, (), frozenset(), -1, 0.5, "0", (0,), "None", 1, ("",), -0.5, "1", (None,), 2 ** 70, " ", (0, 0),
+       "a", -2.5]
 
 
-def label(kind: str, i: int):
+def label(kind: str, i: int, rot: int = 0):
     if kind == "int":
         return i
     if kind == "shift":
@@ -70,8 +81,39 @@ def label(kind: str, i: int):
         return f"n{i}"
     if kind == "tuple":
         return (i // 3, i % 3)
+    if kind == "odd":
+        return ODD[(i + rot) % len(ODD)] if i < len(ODD) else ("odd", i)
     # mixed: labels of different, mutually unorderable types
     return [i, f"s{i}", (i, "t"), i + 0.5, frozenset([i, -1])][i % 5]
+
+
+def labels_of(case):
+    return [label(case["labels"], i, case.get("labrot", 0)) for i in range(case["n"])]
+
+
+# presentation of the arguments (what the annotations allow: `edges: list[tuple]`, neighbour collections: Iterable)
+EDGE_STYLES = ["tuple", "tuple", "list", "mixed"]
+NBR_STYLES = ["list", "tuple", "gen", "iter", "map", "reversed", "dictkeys"]
+ONE_SHOT = {"gen", "iter", "map", "reversed"}
+
+
+def gen_present(rng, n):
+    r = rng.random()
+    if r < 0.45:
+        nbr = rng.choice(["list", "tuple"])
+    elif r < 0.75:
+        nbr = rng.choice(NBR_STYLES)
+    else:
+        nbr = [rng.choice(NBR_STYLES) for _ in range(n)]
+    return {"edge": rng.choice(EDGE_STYLES), "alias": rng.random() < 0.3, "nbr": nbr,
+            "pair": rng.choice(["tuple", "tuple", "list", "mixed"]), "share": rng.random() < 0.4,
+            "order": rng.choice(["kp", "pk", "interleave"])}
+
+
+def nbr_styles(case):
+    pr = case.get("present") or {}
+    st = pr.get("nbr", "tuple" if case.get("container") == "tuple" else "list")
+    return list(st) if isinstance(st, list) else [st] * case["n"]
 
 
 # ---------------------------------------------------------------------------
@@ -358,8 +400,53 @@ def gen_case(rng, big: bool, all_starts: bool, tournament: bool = False):
         starts = [None] + sorted(rng.sample(range(n), min(n, 2)))
     g["starts"] = starts
     g["labels"] = rng.choice(LABEL_KINDS)
-    g["container"] = rng.choice(["list", "tuple"])
+    g["labrot"] = rng.randrange(len(ODD))
+    g["container"] = "list"
+    g["present"] = gen_present(rng, n)
+    if g["scale"] == 1 and rng.random() < 0.15:
+        g["wkind"] = "boolmix"
     return g
+
+
+def gen_history(rng, big: bool):
+    """2-4 related graphs run one after the other in ONE worker call (same labels and presentation): the same input
+    again (on the same objects or on fresh ones), the same structure with other weights, a sub-graph (wide -> narrow),
+    a super-graph (narrow -> wide).  Each member is judged on its own input."""
+    base = gen_case(rng, big, False, tournament=rng.random() < 0.2)
+    members, kinds = [base], ["base"]
+    for _ in range(rng.choice([1, 2, 2, 3])):
+        prev = members[-1]
+        kind = rng.choice(["same_objects", "same_fresh", "reweight", "reweight", "narrow", "wide"])
+        n = prev["n"]
+        if kind in ("same_objects", "same_fresh"):
+            c = {**prev, "reuse_prev": kind == "same_objects"}
+        elif kind == "reweight":
+            ks = sorted({k for _, _, k in prev["edges"]}) or [1]
+            edges = [[u, v, rng.choice(ks) + rng.choice([0, 0, 1, -1, 3])] for u, v, _ in prev["edges"]]
+            adj = _adj_of(rng, n, edges)
+            for lst in adj:
+                rng.shuffle(lst)
+            c = {**prev, "edges": edges, "adj": adj}
+        elif kind == "narrow" and n >= 2:
+            c = drop_nodes(prev, rng.sample(range(n), rng.randint(1, max(1, n // 2))))
+        else:
+            kind = "wide"
+            edges = [list(e) for e in prev["edges"]]
+            new = rng.choice([1, 2])
+            ks = [k for _, _, k in edges] or [1]
+            for x in range(n, n + new):
+                for _ in range(rng.choice([0, 1, 1, 2])):
+                    y = rng.randrange(x)
+                    edges.append([x, y, rng.choice(ks)] if rng.random() < 0.5 else [y, x, rng.choice(ks)])
+            adj = _adj_of(rng, n + new, edges)
+            c = {**prev, "n": n + new, "edges": edges, "adj": adj}
+        c = {k: v for k, v in c.items() if k != "reuse_prev" or v}
+        if isinstance(c.get("present", {}).get("nbr"), list):
+            c["present"] = {**c["present"], "nbr": (c["present"]["nbr"] * 3)[:c["n"]] or "list"}
+        c["starts"] = [st for st in c["starts"] if st is None or st < c["n"]] or [None]
+        members.append(c)
+        kinds.append(kind)
+    return {"history": members, "kinds": kinds}
 
 
 def mk(n, edges, starts=None, labels="int", scale=1, wkind="float", adj=None):
@@ -397,6 +484,8 @@ def pyweight(case, k: int, idx: int):
     if s != 1:
         return k / s
     kind = case["wkind"]
+    if kind == "boolmix":
+        return bool(k) if k in (0, 1) and idx % 2 == 0 else (k if idx % 3 == 0 else float(k))
     if kind == "int" or (kind == "mixed" and idx % 2 == 0):
         return k
     return float(k)
@@ -405,7 +494,7 @@ def pyweight(case, k: int, idx: int):
 def _num(x, scale):
     """exact scaled value of a returned number: int, or a ('bad', repr) marker"""
     try:
-        if isinstance(x, bool) or not isinstance(x, (int, float)):
+        if not isinstance(x, (int, float)):
             return ["bad", repr(x)[:60]]
         if x != x or x in (float("inf"), float("-inf")):
             return ["inf" if x == float("inf") else "bad", repr(x)]
@@ -432,42 +521,113 @@ def _canon(res, scale, node_id):
     return out
 
 
-def impl(case):
+def _build_edges(case):
+    pr = case.get("present") or {}
+    style, memo, out = pr.get("edge", "tuple"), {}, []
+    for i, (u, v, k) in enumerate(case["edges"]):
+        if pr.get("alias") and (u, v, k) in memo:
+            out.append(memo[(u, v, k)])  # the SAME object at two positions
+            continue
+        e = (u, v, pyweight(case, k, i))
+        if style == "list" or (style == "mixed" and i % 2):
+            e = list(e)
+        memo[(u, v, k)] = e
+        out.append(e)
+    return out
+
+
+def _build_graph(case, labs, cnt0=0):
+    """the dict handed to prim; every neighbour collection iterates in the order of case['adj']"""
+    pr = case.get("present") or {}
+    pstyle = pr.get("pair", "tuple")
+    styles = nbr_styles(case)
+    graph, cnt = {}, cnt0
+    for i, lst in enumerate(case["adj"]):
+        row = []
+        for v, k in lst:
+            p = (labs[v], pyweight(case, k, cnt))
+            row.append(list(p) if pstyle == "list" or (pstyle == "mixed" and cnt % 2) else p)
+            cnt += 1
+        st = styles[i]
+        if st == "dictkeys" and (pstyle != "tuple" or len({(v, k) for v, k in lst}) < len(lst)):
+            st = "tuple"  # a keys view needs hashable, pairwise different entries
+        if st == "list":
+            val = row
+        elif st == "tuple":
+            val = tuple(row)
+        elif st == "gen":
+            val = (p for p in row)
+        elif st == "iter":
+            val = iter(row)
+        elif st == "map":
+            val = map(lambda p: p, row)
+        elif st == "reversed":
+            val = reversed(row[::-1])
+        else:
+            val = dict.fromkeys(row).keys()
+        graph[labs[i]] = val
+    return graph, cnt
+
+
+def impl(case, carry=None):
     import sys
     from solvor.mst import kruskal, prim
-    sys.setrecursionlimit(1000)  # the interpreter's default (the worker pool raises it for the harness' own sake)
+    sys.setrecursionlimit(1000)  # the interpreter's default
     n, scale = case["n"], case["scale"]
     out = {"kruskal": {}, "prim": {}}
+    pr = case.get("present") or {}
+    carry = carry if carry is not None else {}
 
     def nid_int(x):
         return x if isinstance(x, int) and not isinstance(x, bool) and 0 <= x < n else -1
 
     only = case.get("only_fn")
-    for af in ((False, True, "default") if n > 0 and only in (None, "kruskal") else ()):
-        edges = [(u, v, pyweight(case, k, i)) for i, (u, v, k) in enumerate(case["edges"])]
+    labs = labels_of(case)
+    back = {lab: i for i, lab in enumerate(labs)}
+    one_shot = any(st in ONE_SHOT for st in nbr_styles(case))
+    sig = json.dumps([case["n"], case["edges"], case["adj"], case["scale"], case["wkind"], case["labels"],
+                      case.get("labrot", 0), pr], sort_keys=True, default=str)
+    reuse = bool(case.get("reuse_prev")) and carry.get("sig") == sig  # same input again, on the SAME objects
+    shared_edges = carry["edges"] if reuse else _build_edges(case)
+    shared_graph = carry.get("graph") if reuse and not one_shot else None
+    if shared_graph is None and pr.get("share") and not one_shot:
+        shared_graph = _build_graph(case, labs)[0]
+    carry.update(sig=sig, edges=shared_edges, graph=shared_graph)
+
+    def run_kruskal(af):
+        edges = shared_edges if (pr.get("share") or reuse) else _build_edges(case)
         kw = {} if af == "default" else {"allow_forest": af}
         try:
             out["kruskal"][str(af)] = ("ok", _canon(kruskal(n, edges, backend="python", **kw), scale, nid_int))
         except BaseException as e:  # noqa: BLE001
             out["kruskal"][str(af)] = ("err", f"{type(e).__name__}: {e}"[:300])
-    labs = [label(case["labels"], i) for i in range(n)]
-    back = {lab: i for i, lab in enumerate(labs)}
-    box = tuple if case.get("container") == "tuple" else list
-    cnt = 0
-    for st in (case["starts"] if only in (None, "prim") else ()):
-        graph = {}
-        for i, lst in enumerate(case["adj"]):
-            row = []
-            for v, k in lst:
-                row.append((labs[v], pyweight(case, k, cnt)))
-                cnt += 1
-            graph[labs[i]] = box(row)
+
+    def run_prim(st, j):
+        graph = shared_graph if shared_graph is not None else _build_graph(case, labs, 7 * j)[0]
         try:
             r = prim(graph) if st is None else prim(graph, start=labs[st])
             out["prim"][str(st)] = ("ok", _canon(r, scale, lambda x: back.get(x, -1) if _hashable(x) else -1))
         except BaseException as e:  # noqa: BLE001
             out["prim"][str(st)] = ("err", f"{type(e).__name__}: {e}"[:300])
+
+    ks = [lambda af=af: run_kruskal(af) for af in ((False, True, "default") if n > 0 and only in (None, "kruskal") else ())]
+    ps = [lambda st=st, j=j: run_prim(st, j) for j, st in enumerate(case["starts"] if only in (None, "prim") else ())]
+    order = pr.get("order", "kp")
+    if order == "pk":
+        calls = ps + ks
+    elif order == "interleave":  # the two entry points alternate
+        calls = [c for pair in zip(ks, ps) for c in pair] + ks[len(ps):] + ps[len(ks):]
+    else:
+        calls = ks + ps
+    for c in calls:
+        c()
     return out
+
+
+def impl_group(group):
+    """one worker call: the members of a history run one after the other in the same process"""
+    carry = {}
+    return [impl(c, carry) for c in group]
 
 
 def _hashable(x):
@@ -502,6 +662,15 @@ def wellformed(sol):
     return good
 
 
+def eff_start(case, key):
+    """index of the node prim starts from: `start=None` -- also when None is the LABEL of the requested node, the
+    code as it is cannot tell the two apart -- means the first key of the dict"""
+    if key == "None":
+        return 0
+    st = int(key)
+    return 0 if label(case["labels"], st, case.get("labrot", 0)) is None else st
+
+
 def requests_for(case, out):
     reqs = []
     do_cert = len(case["edges"]) <= 600  # chkMinCert is cubic; off for the 1000-2500-node family (see judge_call)
@@ -511,7 +680,7 @@ def requests_for(case, out):
         if fn == "kruskal":
             reqs.append(["kruskal", case["n"], case["edges"], None if key == "default" else key == "True", sol, do_cert])
         else:
-            reqs.append(["prim", case["adj"], 0 if key == "None" else int(key), sol, case["edges"], do_cert])
+            reqs.append(["prim", case["adj"], eff_start(case, key), sol, case["edges"], do_cert])
     return reqs
 
 
@@ -520,6 +689,8 @@ def judge_call(ctx, case, fn, key, o, reply, rep):
     n = case["n"]
     what = f"{fn}({'allow_forest=' + key if fn == 'kruskal' else 'start=' + key})"
     rep = dict(rep, call=what, impl=o, model=reply)
+    if fn == "prim" and any(st in ONE_SHOT for st in nbr_styles(case)):
+        ctx = _Suffix(ctx, ":oneshot_neighbours")  # some neighbour collection is a one-shot iterator
     m_status, m_sol, m_obj, m_iters, uf_same, connected, comps, brute, valid, chk = reply[:10]
     if not valid and n > 0:
         raise core.Infra(f"generator produced an invalid graph: {case}")
@@ -636,6 +807,25 @@ def judge(ctx, case, out, replies):
     ctx.count(f"n={case['n']}")
     ctx.count(f"labels:{case['labels']}")
     ctx.count(f"family:{case.get('family', 'random')}")
+    pr = case.get("present")
+    if pr:
+        ctx.count(f"present:edges:{pr['edge']}")
+        ctx.count(f"present:pairs:{pr['pair']}")
+        ctx.count(f"present:call_order:{pr['order']}")
+        for st in set(nbr_styles(case)):
+            ctx.count(f"present:nbrs:{st}")
+        if pr.get("alias") and len({tuple(e) for e in case["edges"]}) < len(case["edges"]):
+            ctx.count("present:aliased_edge_objects")
+        if pr.get("share"):
+            ctx.count("present:same_objects_for_all_calls")
+    if case.get("wkind") == "boolmix" and any(k in (0, 1) for _, _, k in case["edges"]):
+        ctx.count("weights:bool")
+    if case["labels"] == "odd" and case["n"] > 0:
+        labs = labels_of(case)
+        if None in labs:
+            ctx.count("labels:odd:has_None")
+        if any(st is not None and labs[st] is None for st in case["starts"]):
+            ctx.count("start:explicit_node_labelled_None")
     es = case["edges"]
     if any(u == v for u, v, _ in es):
         ctx.count("has_self_loop")
@@ -653,6 +843,19 @@ def judge(ctx, case, out, replies):
         sample = {"case": {k: case[k] for k in ("n", "edges", "scale", "starts", "labels")},
                   "impl": out[1], "model_kruskal": k_reply[:4]}
     ctx.case(canon, rejected >= 1, sample)
+
+
+class _Suffix:
+    """adds a suffix to the class of every failure reported through it (input-presentation classes)"""
+
+    def __init__(self, ctx, sfx):
+        self._ctx, self._sfx = ctx, sfx
+
+    def fail(self, function, klass, what, rep):
+        self._ctx.fail(function, klass + self._sfx, what, rep)
+
+    def __getattr__(self, name):
+        return getattr(self._ctx, name)
 
 
 class _Collector:
@@ -680,9 +883,28 @@ class _Collector:
             self.ctx.tdiv(*a, **kw)
 
 
-def evaluate(cases, ctx=None, procs=None):
-    """Run implementation and model on `cases`; returns per case the list of R_prop failures."""
-    outs = run_pool(impl, cases, timeout=30.0, procs=procs)
+def flatten(items):
+    """cases and histories -> (flat list of cases, groups of indices that share one worker call)"""
+    flat, groups = [], []
+    for it in items:
+        if "history" in it:
+            groups.append(list(range(len(flat), len(flat) + len(it["history"]))))
+            flat += it["history"]
+        else:
+            groups.append([len(flat)])
+            flat.append(it)
+    return flat, groups
+
+
+def evaluate(cases, ctx=None, procs=None, groups=None):
+    """Run implementation and model on `cases`; returns per case the list of R_prop failures.  `groups`: lists of
+    indices into `cases` that run one after the other in the same worker call (default: every case alone)."""
+    groups = groups if groups is not None else [[i] for i in range(len(cases))]
+    gouts = run_pool(impl_group, [[cases[i] for i in g] for g in groups], timeout=30.0, procs=procs)
+    outs = [None] * len(cases)
+    for g, go in zip(groups, gouts):
+        for j, i in enumerate(g):
+            outs[i] = ("ok", go[1][j]) if go[0] == "ok" else go
     reqs, spans = [], []
     for c, o in zip(cases, outs):
         rs = requests_for(c, o)
@@ -821,13 +1043,35 @@ def shrink(case, key, deadline):
     return case, history
 
 
-def run_cases(ctx, cases, do_shrink=True):
+def run_cases(ctx, items, do_shrink=True):
     import time
-    results = evaluate(cases, ctx)
+    cases, groups = flatten(items)
+    for it in items:
+        if "history" in it:
+            ctx.count(f"history:len={len(it['history'])}")
+            for k in it.get("kinds", [])[1:]:
+                ctx.count(f"history:step:{k}")
+    results = evaluate(cases, ctx, groups=groups)
+    where = {i: (g, j) for g in groups for j, i in enumerate(g)}
     shrunk = 0
-    for case, fails in zip(cases, results):
+    for idx, (case, fails) in enumerate(zip(cases, results)):
         if not fails:
             continue
+        g, pos = where[idx]
+        if pos > 0 and len(ctx.violations) < 5:
+            # a later member of a history: does the clause also fail when the same input runs alone, in a fresh process?
+            alone = {(f[0], f[1]) for f in evaluate([case], procs=1)[0]}
+            hist = {"history": [cases[i] for i in g[:pos + 1]]}
+            kept = []
+            for fn, klass, what, rep in fails:
+                if (fn, klass) in alone:
+                    kept.append((fn, klass, what, rep))
+                else:
+                    ctx.fail(fn, klass + ":after_previous_call", what + " -- passes when run alone in a fresh process",
+                             dict(rep, case=hist))
+            fails = kept
+            if not fails:
+                continue
         report, seen = [], set()
         unknown = [f for f in fails if ctx.known_match(f[0], f[1]) is None]
         if do_shrink and unknown and shrunk < 3 and len(ctx.violations) < 5:
@@ -854,7 +1098,9 @@ def run(ctx, budget):
     n = 5000 * budget
     thorough = ctx.tier == "thorough"
     # every 7th case (about 15 %) is of the structured deep-union-find family
-    cases += [gen_case(ctx.rng, big=(thorough and i % 3 == 0), all_starts=(thorough or i % 4 == 0),
+    # ... and every 12th item is a history of 2-4 related graphs run in one worker call
+    cases += [gen_history(ctx.rng, big=(thorough and i % 3 == 0)) if i % 12 == 5 else
+              gen_case(ctx.rng, big=(thorough and i % 3 == 0), all_starts=(thorough or i % 4 == 0),
                        tournament=(i % 7 == 3)) for i in range(n)]
     # a small fixed number of big cases, spread over the list so that the driver chunks share them:
     # 1000-2500-node paths / caterpillars / stars (deep union-find) and 20-32-node (near-)complete graphs (stale heap)
@@ -869,7 +1115,7 @@ def run(ctx, budget):
     ctx.cov["r_trace_agree"] = h.get("r_trace_agree", 0)
     ctx.cov["brute_checked"] = h.get("brute_checked", 0)
     ctx.cov["missing_theorems"] = []
-    ctx.cov["excluded_region"] = ("prim on the empty dict (no nodes), one-shot iterators as neighbour lists, adjacency "
+    ctx.cov["excluded_region"] = ("prim on the empty dict (no nodes), adjacency "
                                   "lists that are not symmetric or name nodes that are not keys, start nodes that are "
                                   "not nodes, n_nodes <= 0 / endpoints out of range (ValueError), non-dyadic float "
                                   "weights whose sums round")
